@@ -88,6 +88,11 @@ func (s *HTTPMessageSignatures) init() error {
 	var kse *keystore.Entry
 
 	if len(s.Signer.KeyID) == 0 {
+		if len(ks.Entries()) == 0 {
+			return errorchain.NewWithMessage(heimdall.ErrConfiguration,
+				"no key material present in the key store for http_message_signatures strategy")
+		}
+
 		kse, err = ks.Entries()[0], nil
 	} else {
 		kse, err = ks.GetKey(s.Signer.KeyID)
